@@ -570,6 +570,26 @@ class SymSeq:
     def __len__(self):
         return len(self.items())
 
+    def startswith(self, prefix):
+        n = len(prefix)
+        return n <= len(self) and (n == 0 or SymBytes(self.items()[:n]) == prefix)
+
+    def endswith(self, suffix):
+        n = len(suffix)
+        return n <= len(self) and (n == 0 or SymBytes(self.items()[len(self) - n :]) == suffix)
+
+    def removeprefix(self, prefix):
+        n = len(prefix)
+        if n and _t(self.startswith(prefix)):
+            return type(self)(self.items()[n:]) if not isinstance(self, SymBytes) else SymBytes(self.items()[n:]).norm()
+        return self
+
+    def removesuffix(self, suffix):
+        n = len(suffix)
+        if n and _t(self.endswith(suffix)):
+            return type(self)(self.items()[: len(self) - n]) if not isinstance(self, SymBytes) else SymBytes(self.items()[: len(self) - n]).norm()
+        return self
+
     def __iter__(self):
         return iter(self.items())
 
@@ -747,6 +767,18 @@ class SymByteArray(SymSeq):
             elif not 0 <= v <= 255:
                 raise ValueError("byte must be in range(0, 256)")
             self._items[k] = v
+
+    def insert(self, index, v):
+        self._items.insert(index if isinstance(index, int) else _eng().concretize(index), v)
+
+    def pop(self, index=-1):
+        return self._items.pop(index if isinstance(index, int) else _eng().concretize(index))
+
+    def clear(self):
+        del self._items[:]
+
+    def reverse(self):
+        self._items.reverse()
 
     def append(self, v):
         if isinstance(v, SymInt):
